@@ -376,54 +376,74 @@ func main() {
 // redactArgs returns a copy of args that is safe to log: the proxy setting,
 // which potentially holds secret credentials, is replaced in every spelling
 // the flag parsers accept (-proxy v, --proxy v, --proxy=v, the legacy -x and
-// a --define whose setting mentions the proxy).
+// a --define whose setting mentions the proxy). The arguments are stepped
+// through the way the flag package does it, so that the value of another
+// option (which may itself look like an option) is never taken for a flag.
 func redactArgs(args []string) []string {
 	const redacted = "**REDACTED**"
 
+	// An option takes a value unless it is a boolean flag of the new or of
+	// the legacy flag set.
+	var scratch Config
+	newFlags := createDaemonFlagSet(&scratch)
+	legacyFlags := createLegacyFlagSet(&scratch)
+	takesValue := func(name string) bool {
+		f := newFlags.Lookup(name)
+		if f == nil {
+			f = legacyFlags.Lookup(name)
+		}
+		if f == nil {
+			return false
+		}
+		if b, ok := f.Value.(interface{ IsBoolFlag() bool }); ok && b.IsBoolFlag() {
+			return false
+		}
+		return true
+	}
+
 	out := make([]string, len(args))
-	redactNext := false // the next argument is the proxy value
-	defineNext := false // the next argument is a --define setting
+	copy(out, args)
 
-	for i, arg := range args {
-		out[i] = arg
-
-		if redactNext {
-			out[i] = redacted
-			redactNext = false
-			continue
-		}
-		if defineNext {
-			if strings.Contains(arg, "proxy") {
-				out[i] = redacted
-			}
-			defineNext = false
-			continue
-		}
-
+	for i := 1; i < len(args); i++ {
+		arg := args[i]
 		if len(arg) < 2 || arg[0] != '-' {
-			continue
+			break // first non-flag argument: the flag package stops here
 		}
 		name := arg[1:]
 		if name[0] == '-' {
 			name = name[1:]
+			if name == "" {
+				break // "--" terminates the flags
+			}
 		}
 		value, hasValue := "", false
 		if eq := strings.IndexByte(name, '='); eq >= 0 {
 			name, value, hasValue = name[:eq], name[eq+1:], true
 		}
 
+		at := i // where the value is
+		if !hasValue {
+			if !takesValue(name) || i+1 >= len(args) {
+				continue
+			}
+			i++
+			at, value = i, args[i]
+		}
+
 		switch name {
 		case "proxy", "x":
 			if hasValue {
-				out[i] = arg[:len(arg)-len(value)] + redacted
+				out[at] = arg[:len(arg)-len(value)] + redacted
 			} else {
-				redactNext = true
+				out[at] = redacted
 			}
 		case "define":
-			if !hasValue {
-				defineNext = true
-			} else if strings.Contains(value, "proxy") {
-				out[i] = arg[:len(arg)-len(value)] + redacted
+			if strings.Contains(value, "proxy") {
+				if hasValue {
+					out[at] = arg[:len(arg)-len(value)] + redacted
+				} else {
+					out[at] = redacted
+				}
 			}
 		}
 	}
